@@ -44,7 +44,8 @@ Verdict(c) ==
       c18_clauses |-> BadGapClauses(c.out),
       c18_at |-> FirstBadGap(c.out),
       c06_pre |-> LineLevelComments(c.inp),
-      c06 |-> c.o1 = c.o2 ]
+      c06 |-> c.o1 = c.o2,
+      c02 |-> c.t0 = c.o1 /\ c.inp = c.out ]        \* canonical mode: the transducer is the identity
 Judge == /\ pt = 1 /\ pc = 1 /\ out = <<>>
          /\ PrintT(ToJson(Verdict(Cases[tid])))
          /\ UNCHANGED tvars
